@@ -132,7 +132,7 @@ Qed.
 
 (* the residue operations: complement, reverse, rc with either update_fts value, on a sequence or on the basket *)
 Definition residue_op (opc : N) : bool :=
-  match opc with 0%N | 1%N | 2%N | 3%N | 5%N | 6%N | 7%N | 17%N => true | _ => false end.
+  match opc with 0%N | 1%N | 2%N | 3%N | 5%N | 6%N | 7%N | 17%N | 18%N | 19%N => true | _ => false end.
 
 Lemma gc_reverse s : gc_counts (reverse s) = gc_counts s.
 Proof. unfold reverse. rewrite !gc_counts_alt. unfold nGC, nATU. rewrite !filter_rev_len. reflexivity. Qed.
@@ -292,3 +292,73 @@ Lemma witness_hist :
   map Bstr (on_basket rc [0; 1; 0] [bs "AAC"%bs; bs "GGU"%bs]) = ["AAC"%bs; "ACC"%bs] /\
   map Bstr (heap (run_ops (init_st [(true, bs "aacg"%bs)]) [(4%N, 0, []); (2%N, 0, [])])) = ["AACG"%bs; "CGTT"%bs].
 Proof. vm_compute. repeat split; reflexivity. Qed.
+
+(* ---------------- sliced baskets are views ---------------- *)
+Lemma nodup_app_disjoint {A} (l1 l2 : list A) x : NoDup (l1 ++ l2) -> In x l1 -> In x l2 -> False.
+Proof.
+  induction l1 as [|a l1 IH]; intros N H1 H2; [destruct H1|].
+  cbn [app] in N. inversion N as [|? ? Hn N']; subst. destruct H1 as [E|H1].
+  - subst. apply Hn. apply in_or_app. right. exact H2.
+  - apply IH; assumption.
+Qed.
+Lemma nodup_app_r {A} (l1 l2 : list A) : NoDup (l1 ++ l2) -> NoDup l2.
+Proof. induction l1 as [|a l1 IH]; cbn [app]; intros N; [exact N|]. inversion N; subst. apply IH. assumption. Qed.
+Lemma nodup_app_l {A} (l1 l2 : list A) : NoDup (l1 ++ l2) -> NoDup l1.
+Proof.
+  induction l1 as [|a l1 IH]; cbn [app]; intros N; [constructor|]. inversion N as [|? ? Hn N']; subst.
+  constructor; [intros H; apply Hn; apply in_or_app; left; exact H|apply IH; exact N'].
+Qed.
+Lemma nth_skipn_ge (l : list nat) p q : p <= q -> nth q l 0 = nth (q - p) (skipn p l) 0.
+Proof.
+  revert l q. induction p as [|p IH]; intros l q H; [rewrite Nat.sub_0_r; reflexivity|].
+  assert (Z : forall n, nth n (@nil nat) 0 = 0) by (intros [|n]; reflexivity).
+  destruct l as [|x l]; [cbn [skipn]; rewrite !Z; reflexivity|]. destruct q as [|q]; [lia|].
+  cbn [skipn nth]. rewrite (IH l q) by lia. reflexivity.
+Qed.
+Lemma nth_firstn_lt (l : list nat) p q : q < p -> nth q l 0 = nth q (firstn p l) 0.
+Proof.
+  revert l q. induction p as [|p IH]; intros l q H; [lia|].
+  destruct l as [|x l]; [cbn [firstn]; reflexivity|]. destruct q as [|q]; [reflexivity|]. cbn [firstn nth]. apply IH. lia.
+Qed.
+
+Lemma in_tail_iff (b : list nat) p q : NoDup b -> q < length b ->
+  existsb (Nat.eqb (nth q b 0)) (skipn p b) = (p <=? q).
+Proof.
+  intros N Hq. destruct (p <=? q) eqn:E.
+  - apply Nat.leb_le in E. apply existsb_exists. exists (nth q b 0). split; [|apply Nat.eqb_refl].
+    rewrite (nth_skipn_ge b p q E). apply nth_In. rewrite skipn_length. lia.
+  - apply Nat.leb_gt in E. destruct (existsb _ (skipn p b)) eqn:X; [|reflexivity]. exfalso.
+    apply existsb_exists in X. destruct X as (x & Hx & Ex). apply Nat.eqb_eq in Ex. subst x.
+    rewrite <- (firstn_skipn p b) in N. apply (nodup_app_disjoint _ _ (nth q b 0) N); [|exact Hx].
+    rewrite (nth_firstn_lt b p q E). apply nth_In. rewrite firstn_length. lia.
+Qed.
+Lemma in_head_iff (b : list nat) p q : NoDup b -> q < length b ->
+  existsb (Nat.eqb (nth q b 0)) (firstn p b) = (q <? p).
+Proof.
+  intros N Hq. destruct (q <? p) eqn:E.
+  - apply Nat.ltb_lt in E. apply existsb_exists. exists (nth q b 0). split; [|apply Nat.eqb_refl].
+    rewrite (nth_firstn_lt b p q E). apply nth_In. rewrite firstn_length. lia.
+  - apply Nat.ltb_ge in E. destruct (existsb _ (firstn p b)) eqn:X; [|reflexivity]. exfalso.
+    apply existsb_exists in X. destruct X as (x & Hx & Ex). apply Nat.eqb_eq in Ex. subst x.
+    rewrite <- (firstn_skipn p b) in N. apply (nodup_app_disjoint _ _ (nth q b 0) N); [exact Hx|].
+    rewrite (nth_skipn_ge b p q E). apply nth_In. rewrite skipn_length. lia.
+Qed.
+
+(* a sliced basket is a view: basket[p:].rc() reverse-complements exactly the objects at positions >= p of the basket,
+   basket[:p+1].complement() complements exactly those at positions <= p (objects listed once) *)
+Lemma slice_view s p arg q : NoDup (bask s) -> q < length (bask s) -> nth q (bask s) 0 < length (heap s) ->
+  cell (heap (step s (18%N, p, arg))) (nth q (bask s) 0) =
+    (if p <=? q then rc (cell (heap s) (nth q (bask s) 0)) else cell (heap s) (nth q (bask s) 0)) /\
+  cell (heap (step s (19%N, p, arg))) (nth q (bask s) 0) =
+    (if q <=? p then complement (cell (heap s) (nth q (bask s) 0)) else cell (heap s) (nth q (bask s) 0)) /\
+  bask (step s (18%N, p, arg)) = bask s /\ bask (step s (19%N, p, arg)) = bask s.
+Proof.
+  intros N Hq Hi.
+  assert (N1 : NoDup (skipn p (bask s))) by (rewrite <- (firstn_skipn p (bask s)) in N; apply nodup_app_r in N; exact N).
+  assert (N2 : NoDup (firstn (S p) (bask s))) by (rewrite <- (firstn_skipn (S p) (bask s)) in N; apply nodup_app_l in N; exact N).
+  split; [|split; [|split; reflexivity]].
+  - cbn [step heap]. rewrite on_basket_nodup by assumption. rewrite in_tail_iff by assumption. reflexivity.
+  - cbn [step heap]. rewrite on_basket_nodup by assumption. rewrite in_head_iff by assumption.
+    replace (q <? S p) with (q <=? p); [reflexivity|].
+    destruct (q <=? p) eqn:E; symmetry; [apply Nat.ltb_lt; apply Nat.leb_le in E; lia|apply Nat.ltb_ge; apply Nat.leb_gt in E; lia].
+Qed.
